@@ -109,6 +109,8 @@ var c19Kinds = []struct {
 	{"BidSecond", []string{"Bid"}}, {"CreateFeedSecond", []string{"CreateFeed"}},
 	{"BuyStorageSecond", []string{"BuyStorage"}},                               // a second plan and payment gauge
 	{"AttReqSecond", []string{"AttReq"}}, {"RepReqSecond", []string{"RepReq"}}, // a second open form of each kind
+	// governance sets parameters to the lowest values validation accepts / to values unlike the defaults
+	{"ParamsZeroSecond", nil}, {"ParamsAltSecond", nil},
 }
 
 func (s C19) Events(env world.Env, mm mc.Model) []string {
@@ -118,7 +120,7 @@ func (s C19) Events(env world.Env, mm mc.Model) []string {
 		if has(m.Done, k.name) {
 			continue
 		}
-		if !s.Deep && (k.name == "BuyStorageSecond" || k.name == "AttReqSecond" || k.name == "RepReqSecond") {
+		if !s.Deep && (k.name == "BuyStorageSecond" || k.name == "AttReqSecond" || k.name == "RepReqSecond" || strings.HasPrefix(k.name, "Params")) {
 			continue // reachable only far beyond the depth of the search from the empty state: explored by the Deep variant
 		}
 		ok := true
@@ -169,6 +171,31 @@ func c19Do(env world.Env, m *c19Model, ev string) bool {
 		msg = rnstypes.NewMsgRegisterName(u, "beta.jkl", 2, "{}", false)
 	case "BidSecond":
 		msg = rnstypes.NewMsgBid(b, "beta.jkl", sdk.NewInt64Coin("ujkl", 6))
+	case "ParamsZeroSecond", "ParamsAltSecond":
+		ok := true
+		env.Mutate(func(ctx sdk.Context) {
+			defer func() {
+				if r := recover(); r != nil {
+					panic(fmt.Sprintf("harness: parameter set rejected by the parameter store: %v", r))
+				}
+			}()
+			sp := w.App.StorageKeeper.GetParams(ctx)
+			mp := w.App.MintKeeper.GetParams(ctx)
+			if p[0] == "ParamsZeroSecond" {
+				sp.PolRatio, sp.ReferralCommission, sp.AttestMinToPass = 0, 0, 0
+				mp.MintDecrease = 0
+			} else {
+				sp.PolRatio, sp.ReferralCommission, sp.ProofWindow, sp.CheckWindow, sp.ChunkSize, sp.PricePerTbPerMonth, sp.CollateralPrice = 1, 99, 7, 11, 5, 9, 2
+				mp.TokensPerBlock, mp.MintDecrease = 7, 1
+			}
+			if sp.Validate() != nil || mp.Validate() != nil {
+				ok = false
+				return
+			}
+			w.App.StorageKeeper.SetParams(ctx, sp)
+			w.App.MintKeeper.SetParams(ctx, mp)
+		})
+		return ok
 	case "BuyStorageSecond":
 		msg = storagetypes.NewMsgBuyStorage(b, b, 60, 2_000_000_000, "ujkl")
 	case "AttReqSecond":
@@ -354,6 +381,20 @@ func c19ModuleRoundTrip(w *world.World, ctx sdk.Context) (vs []mc.Viol, kinds in
 			vs = append(vs, viol("exporting-again-yields-the-same-genesis", "store="+m.store, "module %s: the genesis exported after import differs from the one imported", m.store))
 		}
 		vs = append(vs, c19CompareStore(w, ctx, tw, tctx, m.store, "module-level", &kinds, baseline[m.store])...)
+	}
+	// the governance parameters of every module are part of its state (they live in the params store, not the module's)
+	for _, pr := range []struct{ mod, src, dst string }{
+		{"storage", fmt.Sprintf("%+v", w.App.StorageKeeper.GetParams(ctx)), fmt.Sprintf("%+v", tw.App.StorageKeeper.GetParams(tctx))},
+		{"rns", fmt.Sprintf("%+v", w.App.RnsKeeper.GetParams(ctx)), fmt.Sprintf("%+v", tw.App.RnsKeeper.GetParams(tctx))},
+		{"filetree", fmt.Sprintf("%+v", w.App.FileTreeKeeper.GetParams(ctx)), fmt.Sprintf("%+v", tw.App.FileTreeKeeper.GetParams(tctx))},
+		{"oracle", fmt.Sprintf("%+v", w.App.OracleKeeper.GetParams(ctx)), fmt.Sprintf("%+v", tw.App.OracleKeeper.GetParams(tctx))},
+		{"notifications", fmt.Sprintf("%+v", w.App.NotificationsKeeper.GetParams(ctx)), fmt.Sprintf("%+v", tw.App.NotificationsKeeper.GetParams(tctx))},
+		{"jklmint", fmt.Sprintf("%+v", w.App.MintKeeper.GetParams(ctx)), fmt.Sprintf("%+v", tw.App.MintKeeper.GetParams(tctx))},
+	} {
+		kinds++
+		if pr.src != pr.dst {
+			vs = append(vs, viol("every-record-readable-before-is-readable-after", "params-changed module="+pr.mod, "module %s: parameters before export %q, after import %q", pr.mod, pr.src, pr.dst))
+		}
 	}
 	return vs, kinds
 }
